@@ -17,6 +17,7 @@ class Report:
         self.known = []           # subset matching known_findings
         self.artefacts = []       # sat models that did not reproduce under a stated idealisation
         self.harness_errors = []
+        self.inconclusive = []
         self.notes = []
         self.assumptions = []
         self.outside = []
@@ -46,9 +47,14 @@ class Report:
         if extra:
             h.update(extra)
         self.harnesses.append(h)
+        if os.environ.get("SXV_VERBOSE"):
+            import sys
+            print("[%6.1fs] %s paths=%d wall=%.1fs %s" % (time.time() - self.t0, name, ex.paths, ex.wall_s, dict(st)), file=sys.stderr, flush=True)
         self.functions.update(ex.entered)
+        if ex.stopped_on_cex:
+            h["stopped_after_counterexamples"] = True
         if not ex.exhausted:
-            self.harness_errors.append("%s: path tree not exhausted (budget)" % name)
+            self.inconclusive.append("%s: path tree not exhausted within the time budget (%d paths explored)" % (name, ex.paths))
         for r in ex.results:
             if r["status"] == "harness_error":
                 self.harness_errors.append("%s: %s %s" % (name, r.get("why"), r.get("tb", "")))
@@ -131,6 +137,7 @@ class Report:
             "inductive": self.inductive,
             "idealisation_artefacts": self.artefacts[:5],
             "harness_errors": self.harness_errors[:5],
+            "inconclusive": self.inconclusive[:10],
             "known_findings_matched": [v["key"] for v in self.known],
             "violation_keys": [v["key"] for v in unknown_viol],
         }
@@ -144,6 +151,8 @@ class Report:
             self.prop, self.tier, tot["feasible_paths"], tot["queries"], tot["unsat"], tot["sat"], tot["unknown"],
             time.time() - self.t0, len(unknown_viol), len(self.known),
             " HARNESS-ERRORS=%d" % len(self.harness_errors) if self.harness_errors else ""))
+        for x in self.inconclusive[:5]:
+            print("INCONCLUSIVE: %s" % x)
         if unknown_viol:
             return 1
         if self.harness_errors:
